@@ -39,6 +39,8 @@ type Options struct {
 	InsecureUpstream  bool // do not verify origin / upstream certificates
 	CustomLabel       bool // add a per-request label (X-Vf-Id) to the HTTP metrics
 	TLSListener       bool // the proxy listener speaks TLS (self-signed certificate)
+	TLSHandshakeTimeout   time.Duration // transport: TLS handshake timeout towards the origin
+	ResponseHeaderTimeout time.Duration // transport: time to wait for the origin's response head
 }
 
 // TraceEv is one ProxyTrace event as seen through the verif hook.
@@ -114,6 +116,12 @@ func New(opt Options) (*Rig, error) {
 		tc.DialTimeout = opt.DialTimeout
 	}
 	tc.Insecure = opt.InsecureUpstream
+	if opt.TLSHandshakeTimeout != 0 {
+		tc.HandshakeTimeout = opt.TLSHandshakeTimeout
+	}
+	if opt.ResponseHeaderTimeout != 0 {
+		tc.ResponseHeaderTimeout = opt.ResponseHeaderTimeout
+	}
 	tr, err := forwarder.NewHTTPTransport(tc)
 	if err != nil {
 		return nil, err
